@@ -69,6 +69,22 @@ def step (st : St) (toks : List String) : St × String :=
             | .ok buf => match testBufferOwned s buf with
               | .error e => e.name
               | .ok v' => s!"ok {buf.2} {showVal s v'}")
+        else if op = "tbr" then
+          -- `tbr V1 | V2`: TestByteSet::new(V1), data_mut().set_from_owned(V2), underlying_data/owned
+          match s with
+          | .disc _ _ => badOp
+          | _ =>
+            let t1 := rest.takeWhile (· ≠ "|")
+            let t2 := (rest.dropWhile (· ≠ "|")).drop 1
+            withVal s t1 (fun v1 => withVal s t2 (fun v2 =>
+              if !(fits s v1 && fits s v2) then badOp else
+              match testBufferNew s v1 with
+              | .error e => e.name
+              | .ok buf => match testBufferSet s buf v2 with
+                | .error e => e.name
+                | .ok buf' => match testBufferOwned s buf' with
+                  | .error e => e.name
+                  | .ok v' => s!"ok {toHex (testBufferData buf')} {showVal s v'}"))
         else if op = "sera" then
           match s with
           | .disc d inner => withVal s rest (fun v => match serializeAccount d inner v with
